@@ -195,6 +195,10 @@ def scenarios(tier, seed):
     # constraints
     for c in ("simple-abs", "simple-rel", "mat-cov-abs", "mat-cov-rel", "mat-cor-abs", "mat-cor-rel"):
         add("xy", "chi2_fast", [Y[0]], constraints=(c,))
+    for c in ("mat-cor-abs-rev", "mat-cov-abs-rev", "mat-cor-rel-rev"):
+        add("xy", "chi2_fast", [Y[0]], constraints=(c,))
+    for c in ("mat-cor-abs-last", "mat-cov-rel-last"):
+        add("xy", "chi2_fast", [Y[0]], constraints=(c,), model="quad")
     add("xy", "chi2", [Y[0]], constraints=("simple-abs",))
     add("xy", "chi2_no_errors", [], constraints=("simple-abs",))
     add("xy", "nll-gaussian", [Y[1]], constraints=("simple-rel",))
